@@ -677,7 +677,7 @@ func c9Bounds() (treeMaxByPatternSize []int) {
 	if vx.Thorough() {
 		return []int{0, 6, 6, 6, 6, 6, 5, 5, 3}
 	}
-	return []int{0, 5, 5, 5, 5, 5, 5, 3, 3}
+	return []int{0, 6, 6, 6, 6, 5, 5, 3, 3}
 }
 
 func TestVerifC09(t *testing.T) {
